@@ -32,6 +32,7 @@ def o_quiescent_complete(w):
     out = []
     for op in w.ops.values():
         n = w.ghost.get('nrun%d' % op['opid'], ZERO)
+        if op.get('must_panic') or op.get('panics'): continue
         if op['kind'] in ('future_desync', 'after'):
             out.append(('stranded-future-op:op%d(%s by %s)' % (op['opid'], op['kind'], op['thread']), And(w.quiescent, Or(Ne(n, ONE), Eq(w.ghost.get('end%d' % op['opid'], NONE_T), NONE_T)))))
         elif op['kind'] in ('desync', 'sync'):
@@ -180,6 +181,43 @@ def o_drop_waits(w):
             out.append(('value-freed-before-op-finished:op%d' % k, And(sched_before, accepted, Ne(fa, NONE_T), Or(Eq(end, NONE_T), Ult(fa, end)))))
     return out
 
+def o_panic_unexpected(w):
+    """library panics other than the ones the scenario provokes (the panicking job, operations on the panicked object)"""
+    allowed = set(w.scen.get('expect_panic', []))
+    names = {t.tid: t.name for t in w.m.threads}
+    out = []
+    for tid, wh, g in w.m.panics:
+        nm = names.get(tid, '?')
+        if nm in allowed or (nm.startswith('P') and 'pool' in allowed): continue
+        out.append(('panic:%s:%s' % (nm, wh), g))
+    return out
+
+def o_panic_contained(w):
+    """after a job panicked: operations marked must_panic never run their closure and never return normally; the object is marked panicked"""
+    out = []
+    for op in w.ops.values():
+        k = op['opid']
+        if op.get('must_panic'):
+            n = w.ghost.get('nrun%d' % k, ZERO); ret = w.ghost.get('ret%d' % k, NONE_T)
+            out.append(('op-on-panicked-object-ran:op%d' % k, Ugt(n, ZERO)))
+            out.append(('op-on-panicked-object-returned-normally:op%d' % k, Ne(ret, NONE_T)))
+    # the panicked objects end up marked Panicked; the healthy ones are fully usable: everything scheduled on them ran once, queues idle and empty
+    vs = [v for k, v in w.prog.enums.items() if 'Panicked' in v and 'WaitingForUnpark' in v]
+    PAN = BV(vs[0].index('Panicked'))
+    sick = set(op['obj'] for op in w.ops.values() if op.get('panics'))
+    for q in range(w.scen.get('queues', 1)):
+        st, ln, lk = queue_core(w, q)
+        if q in sick:
+            out.append(('panicked-queue%d-not-marked-panicked' % q, And(w.quiescent, Ne(st, PAN))))
+        else:
+            out.append(('healthy-queue%d-not-idle-at-quiescence' % q, And(w.quiescent, Ne(st, ZERO))))
+            out.append(('healthy-queue%d-not-empty-at-quiescence' % q, And(w.quiescent, Ne(ln, ZERO))))
+    for op in w.ops.values():
+        if op['obj'] in sick or op['kind'] not in ('desync', 'sync'): continue
+        n = w.ghost.get('nrun%d' % op['opid'], ZERO)
+        out.append(('healthy-op-stranded:op%d(%s by %s)' % (op['opid'], op['kind'], op['thread']), And(w.quiescent, Ne(n, ONE))))
+    return out
+
 def o_independent(w):
     """with the gates never opened, whenever no thread can move every un-gated operation has completed"""
     out = []
@@ -189,5 +227,5 @@ def o_independent(w):
         out.append(('blocked-by-other-object:op%d' % op['opid'], And(w.norun, Ne(n, ONE))))
     return out
 
-ORACLES = {'independent': o_independent, 'memory': o_memory, 'drop_waits': o_drop_waits, 'fut_results': o_fut_results, 'suspend': o_suspend, 'cancelled_clean': o_cancelled_clean, 'overlap': o_overlap, 'ran_twice': o_ran_twice, 'pool_max': o_pool_max, 'deadlock': o_deadlock, 'panic': o_panic,
+ORACLES = {'independent': o_independent, 'panic_unexpected': o_panic_unexpected, 'panic_contained': o_panic_contained, 'memory': o_memory, 'drop_waits': o_drop_waits, 'fut_results': o_fut_results, 'suspend': o_suspend, 'cancelled_clean': o_cancelled_clean, 'overlap': o_overlap, 'ran_twice': o_ran_twice, 'pool_max': o_pool_max, 'deadlock': o_deadlock, 'panic': o_panic,
            'quiescent_complete': o_quiescent_complete, 'results': o_results, 'order': o_order, 'final_try_sync': o_final_try_sync}
